@@ -9,6 +9,11 @@
   finish_sketch:  A_share*z0 + B_share (+ z0^2 - z1 - z2 for the helper only).
   next_message:  length 1 and sum != 0 => Err; length 1 and sum == 0 => Ok(None); length 3 => Ok(Some(sum)); else Err.
 
+  eval_and_sketch (whole function, ANY number of candidate prefixes; the IDPF evaluation of prefix k and the verification-randomness
+        stream are abstract): exactly three correlated-randomness elements (a, b, c) are consumed; Ok exactly when every IDPF
+        evaluation succeeds; the output share is the data share of each prefix in order; the sketch is
+        (a + sum_k data_k r_k, b + sum_k data_k r_k^2, c + sum_k auth_k r_k) with ONE stream element r_k per prefix, in order.
+
 The honest-case identity over these contracts is unit sketch_lemma."""
 from fe_common import FE_PRELUDE
 from vunit import VUnit
@@ -185,4 +190,67 @@ ensures
         }
     }
 ''')])
+
+    # ---- Poplar1::eval_and_sketch: one IDPF evaluation and one verification-randomness element per candidate prefix, any number of prefixes ----
+    u.raw("""
+// idpf.eval(.., prefix k, ..) converted to Poplar1IdpfValue<F>: the (data, authenticator) share pair of candidate prefix k, or an error  (C06)
+pub uninterp spec fn idpf_share(k: int) -> Option<(Fe, Fe)>;
+pub struct Poplar1IdpfValue(pub [Fe; 2]);
+#[verifier::external_body]
+fn idpf_eval_prefix(k: usize) -> (r: Result<[Fe; 2], VdafError>)
+    ensures match idpf_share(k as int) { Some(p) => r is Ok && r->Ok_0[0] == p.0 && r->Ok_0[1] == p.1, None => r is Err }
+{ unimplemented!() }
+// self.init_prng(verify_key, DST_VERIFY_RANDOMNESS, ctx, [nonce, level]): the verification-randomness stream (its transcript: C18)
+pub uninterp spec fn verify_r(k: int) -> Fe;
+#[verifier::external_body]
+fn init_verify_prng() -> (r: PrngFe) ensures r.pos() == 0, forall|k: int| #[trigger] r.at(k) == verify_r(k) { unimplemented!() }
+// sum_{k<n} data_k * r_k,  sum data_k * r_k^2,  sum auth_k * r_k
+pub open spec fn sk1(n: int) -> int decreases n { if n <= 0 { 0 } else { sk1(n - 1) + fe_v(idpf_share(n - 1)->Some_0.0) * fe_v(verify_r(n - 1)) } }
+pub open spec fn sk2(n: int) -> int decreases n { if n <= 0 { 0 } else { sk2(n - 1) + (fe_v(idpf_share(n - 1)->Some_0.0) * fe_v(verify_r(n - 1))) * fe_v(verify_r(n - 1)) } }
+pub open spec fn sk3(n: int) -> int decreases n { if n <= 0 { 0 } else { sk3(n - 1) + fe_v(idpf_share(n - 1)->Some_0.1) * fe_v(verify_r(n - 1)) } }
+""", 'eval-and-sketch-shims')
+    u.item(PF, [r'impl<P: Xof<SEED_SIZE>, const SEED_SIZE: usize> Poplar1<P, SEED_SIZE>\s*(?=\{)', 'fn eval_and_sketch'], ret='r', nth={0: 1}, attrs='#[verifier::loop_isolation(false)]',
+           rewrites=[(r'fn eval_and_sketch<F>\(.*?\) -> Result<\(Vec<F>, Vec<F>\), VdafError>\s+where.*?\{\s*let mut verify_prng = self\.init_prng\(.*?\);',
+                      'fn eval_and_sketch(num_prefixes: usize, corr_prng: &mut PrngFe) -> Result<(Vec<Fe>, Vec<Fe>), VdafError> { let mut verify_prng = init_verify_prng();', 1),
+                     (r'let mut out_share = Vec::with_capacity\(agg_param\.prefixes\.len\(\)\);', 'let mut out_share: Vec<Fe> = Vec::with_capacity(num_prefixes);', 1),
+                     (r'let mut idpf_eval_cache = RingBufferCache::new\(agg_param\.prefixes\.len\(\)\);', '', 1),
+                     (r'let idpf = Idpf::<Poplar1IdpfValue<Field64>, Poplar1IdpfValue<Field255>>::new\(\(\), \(\)\);', '', 1),
+                     (r'for prefix in agg_param\.prefixes\.iter\(\) \{', 'for k_ in 0..num_prefixes {', 1),      # E4c
+                     (r'let share = Poplar1IdpfValue::<F>::from\(idpf\.eval\(.*?\)\?\);', 'let share = Poplar1IdpfValue(idpf_eval_prefix(k_)?);', 1)],
+           sig="""
+ensures
+    // three correlated-randomness elements are consumed, whatever happens
+    final(corr_prng).pos() == old(corr_prng).pos() + 3, forall|i: int| #[trigger] final(corr_prng).at(i) == old(corr_prng).at(i),
+    r is Ok <==> forall|k: int| 0 <= k < num_prefixes ==> #[trigger] idpf_share(k) is Some,
+    // one output element per candidate prefix, in order: the data share of that prefix
+    r is Ok ==> r->Ok_0.0@.len() == num_prefixes && forall|k: int| 0 <= k < num_prefixes ==> #[trigger] r->Ok_0.0@[k] == idpf_share(k)->Some_0.0,
+    // the sketch: (a + sum data_k r_k,  b + sum data_k r_k^2,  c + sum auth_k r_k) with ONE verification-randomness element per prefix, in order
+    r is Ok ==> r->Ok_0.1@.len() == 3
+        && cong(fe_v(r->Ok_0.1@[0]), fe_v(old(corr_prng).at(old(corr_prng).pos())) + sk1(num_prefixes as int))
+        && cong(fe_v(r->Ok_0.1@[1]), fe_v(old(corr_prng).at(old(corr_prng).pos() + 1)) + sk2(num_prefixes as int))
+        && cong(fe_v(r->Ok_0.1@[2]), fe_v(old(corr_prng).at(old(corr_prng).pos() + 2)) + sk3(num_prefixes as int)),
+""", loops={0: """
+invariant
+    verify_prng.pos() == k_, forall|k: int| #[trigger] verify_prng.at(k) == verify_r(k),
+    corr_prng.pos() == old(corr_prng).pos() + 3, forall|i: int| #[trigger] corr_prng.at(i) == old(corr_prng).at(i),
+    out_share@.len() == k_, sketch_share@.len() == 3,
+    forall|k: int| 0 <= k < k_ ==> #[trigger] idpf_share(k) is Some,
+    forall|k: int| 0 <= k < k_ ==> #[trigger] out_share@[k] == idpf_share(k)->Some_0.0,
+    cong(fe_v(sketch_share@[0]), fe_v(old(corr_prng).at(old(corr_prng).pos())) + sk1(k_ as int)),
+    cong(fe_v(sketch_share@[1]), fe_v(old(corr_prng).at(old(corr_prng).pos() + 1)) + sk2(k_ as int)),
+    cong(fe_v(sketch_share@[2]), fe_v(old(corr_prng).at(old(corr_prng).pos() + 2)) + sk3(k_ as int)),
+"""}, before=[('for k_ in 0..num_prefixes', """
+    lemma_c0(sketch_share@[0]); lemma_c0(sketch_share@[1]); lemma_c0(sketch_share@[2]);
+"""), ('sketch_share[0] += checked_data_share', """
+    let d = share.0[0]; let au = share.0[1];
+    let (s0, s1, s2) = (sketch_share@[0], sketch_share@[1], sketch_share@[2]);
+    let a0 = fe_v(old(corr_prng).at(old(corr_prng).pos())); let b0 = fe_v(old(corr_prng).at(old(corr_prng).pos() + 1)); let c0 = fe_v(old(corr_prng).at(old(corr_prng).pos() + 2));
+    lemma_c0(d); lemma_c0(au); lemma_c0(r);
+    lemma_mul_c(d, r, fe_v(d), fe_v(r));
+    lemma_add_c(s0, checked_data_share, a0 + sk1(k_ as int), fe_v(d) * fe_v(r));
+    lemma_mul_c(checked_data_share, r, fe_v(d) * fe_v(r), fe_v(r));
+    lemma_add_c(s1, fe_mk(fe_v(checked_data_share) * fe_v(r)), b0 + sk2(k_ as int), (fe_v(d) * fe_v(r)) * fe_v(r));
+    lemma_mul_c(au, r, fe_v(au), fe_v(r));
+    lemma_add_c(s2, fe_mk(fe_v(au) * fe_v(r)), c0 + sk3(k_ as int), fe_v(au) * fe_v(r));
+""")])
     return u
